@@ -327,6 +327,15 @@ def class_state_obligations(rep: Report, ledger):
         file = f.get("function", "").partition(":")[0]
         if file.endswith(".py") and file not in files and os.path.exists(os.path.join(rep.repo, file)):
             files.append(file)
+    if rep.pid == "C09":
+        # the read-only property is stated for the whole package: module-level state can carry a caller's write mode from one call to the
+        # next (e.g. keyword arguments remembered in a module dictionary), so every module is covered
+        for d, _dirs, fs in os.walk(os.path.join(rep.repo, "dissect", "hypervisor")):
+            for f_ in sorted(fs):
+                rel = os.path.relpath(os.path.join(d, f_), rep.repo)
+                if f_.endswith(".py") and rel not in files:
+                    files.append(rel)
+        files.sort()
     todo = []
     for file in files:  # every class of every file that has a function under contract: the classes of one parser cooperate
         try:
